@@ -90,4 +90,19 @@ func registerProps() {
 		Stub:   []string{"TLS exporter: SimNet gives both ends of a simulated session the same random keying material and different sessions different material (real TLS exporter values are not exercised here)", "attackers: scripts", "runICEQUICTransfer / runTransfer / acceptExtraConns call sites (not simulated: the order of authentication and transfer there is not evidence of this check)"},
 		Assume: []string{"HMAC-SHA256 and the TLS exporter are not attacked; the check is about the protocol logic around them"},
 	})
+	t3Real := []string{"cmd/thruserv main(), /session and /ws handlers, limiters, turnIssuer (instrumented copy of the current working tree, started from its real main with per-run flags)", "internal/peers.Hub, internal/session.Store, internal/config flag parsing", "net/http server and client, gorilla/websocket (real, not instrumented)"}
+	t3Stub := []string{"TCP: SimTCP (every connection set-up and segment delivery is a scheduler event; fake clock)", "crypto/rand.Reader: seeded reader"}
+	t3Assume := []string{"net/http and gorilla/websocket goroutines are not instrumented: between two scheduler events they run freely; replay exactness is measured by the determinism self-test, not guaranteed", "one fake clock for server and clients"}
+	reg(&propDef{
+		ID: "C16", Pkg: "cmd/thruserv", Level: "exploration",
+		Quick: 2500, Thorough: 100000, QuickWall: 5 * time.Minute, ThorWall: 30 * time.Minute,
+		Rule: "each run = one server configuration drawn from the grid {12 limit/timeout flags x (default, small, 0)} x TURN off / 1-2 TURN URLs in 8 spellings with a secret and optional credential TTL, peer ids with URL-significant characters, client max_receivers 0/1/4; the real clienthttp.CreateSession, buildWebSocketURL and wsclient.Dial run for a host and a receiver against the real server; the credentials the server pushes are parsed with the client's parseTurnServer and compared with what the configured secret and URL mean; no faults; distinct by decision-log hash",
+		Real: append([]string{"internal/clienthttp.CreateSession, internal/app.buildWebSocketURL, internal/wsclient.Dial/ReadLoop, internal/ice.parseTurnServer (through overlay shims)"}, t3Real...), Stub: t3Stub, Assume: t3Assume,
+	})
+	reg(&propDef{
+		ID: "C14", Pkg: "cmd/thruserv", Level: "exploration",
+		Quick: 3000, Thorough: 120000, QuickWall: 5 * time.Minute, ThorWall: 30 * time.Minute,
+		Rule: "each run = one scenario against the real server started with the flags under test: join-code lifetime (connect at creation, 1 ms before and 1 ms / 2 s after expiry for lifetimes 1 s ... 24 h on the fake clock; connect while the host is connected, 30 s in, and 1 s after it disconnected), uniqueness among 20-50 live sessions with a join-code random source reduced to 256 codes, concurrent bursts of session creations / receivers of one host / WebSocket connections against limits 1-3 and against 0 (disabled: all must pass), message sizes around --max-message-bytes, message bursts against --ws-msgs-per-sec/--ws-msgs-burst; seeded schedule over the server's generated yield points and the SimTCP events; distinct by decision-log hash",
+		Real: t3Real, Stub: append([]string{"clients: harness goroutines using net/http and raw gorilla connections"}, t3Stub...), Assume: t3Assume,
+	})
 }
